@@ -332,6 +332,12 @@ CORPUS_SCRIPTS = [
     ["isready", "position fen 7k/5Q2/6K1/8/8/8/8/8 b - - 0 1", "go perft 255", "go split 255", "go perft 254", "isready", "quit"],
     ["isready", "position fen R6k/6pp/8/8/8/8/8/7K b - - 0 1", "go perft 255", "go split 255", "isready", "quit"],
     ["isready", "position fen 8/8/4k3/p1p1p1p1/P1P1P1P1/8/4K3/8 w - - 0 1", "go perft 3", "go split 2", "go depth 12", "isready", "quit"],
+    # numeric arguments at the edge of their integer types, where that is cheap: a huge movestogo / increment makes the budget tiny
+    ["isready", "go wtime 1000 btime 1000 movestogo 4294967295", "go wtime 1000 btime 1000 movestogo 4294967294", "go wtime 50 btime 50 winc 4294967295 binc 4294967295 movestogo 2147483648", "isready", "quit"],
+    ["isready", "go wtime 4294967295 btime 4294967295 movestogo 4294967295", "go wtime 0 btime 0 winc 0 binc 0 movestogo 4294967295", "isready", "quit"],
+    # the record position with 218 legal moves (the move-ordering buffers hold exactly 218) and one with 217
+    ["isready", "position fen R6R/3Q4/1Q4Q1/4Q3/2Q4Q/Q4Q2/pp1Q4/kBNN1KB1 w - - 0 1", "go perft 1", "go depth 2", "go nodes 0", "isready", "quit"],
+    ["isready", "position fen 3Q4/1Q4Q1/4Q3/2Q4R/Q4Q2/3Q4/1Q4Rp/1K1BBNNk w - - 0 1", "go perft 1", "go depth 2", "isready", "quit"],
     ["go depth 1"],
     ["print"],
     [],
